@@ -146,4 +146,14 @@ def addMix (primary : String → Option String) (store : Int → Option Sol) (co
     | some sol => addSolution primary acc sol nf.2 (intensiveWater sm comps.length nf.2 sol.water)
     | none => { acc with err := acc.err + 2 }) a      -- "Mix solution not found" is reported in both loops
 
+/-- the solution with water mass and every extensive amount multiplied by `k` (what `-water k` does to an initial
+solution, cf. `Units.water_scaling`; also `cxxSolution::multiply`) -/
+def Sol.scale (s : Sol) (k : Rat) : Sol :=
+  { s with totalH := s.totalH * k, totalO := s.totalO * k, cb := s.cb * k, water := s.water * k, alk := s.alk * k,
+           totals := multiplyTotals s.totals k }
+
+def Acc.scale (a : Acc) (k : Rat) : Acc :=
+  { a with totalH := a.totalH * k, totalO := a.totalO * k, cb := a.cb * k, water := a.water * k,
+           totals := multiplyTotals a.totals k }
+
 end PhreeqcVerif.MixAlg
